@@ -6,6 +6,7 @@ CONSTANT RestoreMode = "replace"
 CONSTANT MaxLog = 3
 CONSTANT MaxSnaps = 2
 CONSTANT MaxDowns = 1
+CONSTANT MaxFaults = 0
 CONSTANT MaxInstalls = 2
 VIEW View
 INVARIANT TypeOK
